@@ -122,6 +122,7 @@ def model (line : String) : String :=
     | some p => toString (claimTTL p)
     | none => "bad-case"
   | ["t-once", _] => "early=false n=1 cancel-after=error"
+  | ["t-oncepr", _] => "n=1 listed=false"
   | ["t-every", _, _] => "early=false extra<=1:true"
   | ["t-pause", _, _] => "early=false extra<=1:true resumed"
   | _ => "bad-case"
@@ -227,6 +228,13 @@ def judge (line : String) : String :=
     else if (o.splitOn "early=true").length > 1 then "bad a one-shot message was delivered before its delay"
     else if (o.splitOn "n=1 ").length > 1 then "ok"
     else if o.startsWith "err:" then "bad scheduling failed: " ++ o
+    else "bad a one-shot message was not delivered exactly once: " ++ o
+  | "t-oncepr" :: _ =>
+    if o == "late" || o == "raced" then "ok"
+    else if o.startsWith "n=2" then "bad a one-shot message resumed after its fire instant was delivered more than once"
+    else if o.startsWith "delivered-while-paused" then "bad a paused one-shot message was delivered"
+    else if o.startsWith "resume:" || o.startsWith "err:" then "bad schedule operation failed: " ++ o
+    else if o.startsWith "n=1" then "ok"
     else "bad a one-shot message was not delivered exactly once: " ++ o
   | "t-every" :: _ | "t-pause" :: _ =>
     if o == "late" then "ok"
